@@ -958,13 +958,30 @@ def runListener (case impl : String) : String × String :=
     let l := ResLimiter.init ⟨g, c⟩
     -- with a global limit (direct calls only in the generated cases) the verdict kinds matter: `listenerRun`
     let (outs, fwd) := if g > 0 then listenerRun ops l [] 0 else listenerRunAtoms ops l
-    let m := s!"r={",".intercalate outs} fwd={fwd}"
+    -- `fail=1`: the upstream is unreachable, so a query that is handled is answered SERVFAIL (`s`) instead of
+    -- NOERROR (`o`) and the upstream sees nothing; what is charged is the same (`handleReq` charges
+    -- `costFromUpstream` before it forwards), so the prediction and the specification are those of the healthy
+    -- run with `s` read as `o` (network ops only)
+    let fail := kvGet toks "fail" == some "1"
+    let sw (a b : Char) (xs : List String) : List String :=
+      (ops.zip xs).map fun (op, x) => match op with
+        | .direct _ _ => x
+        | _ => if fail then String.ofList (x.toList.map fun ch => if ch == a then b else ch) else x
+    let m := s!"r={",".intercalate (sw 'o' 's' outs)} fwd={if fail then 0 else fwd}"
     let itoks := words impl
     let v := match kvGet itoks "r", kvNat itoks "fwd" with
       | some r, some f =>
+        let rs := r.splitOn ","
         if g > 0 then
-          if directSpec c (specBurst c) g.toNat ops (r.splitOn ",") (0, 0) [] && f == 0 then "ok" else "viol:global-shared-only"
-        else if listenerSpec c (specBurst c) ops (r.splitOn ",") f then "ok" else "viol:listener"
+          if directSpec c (specBurst c) g.toNat ops rs (0, 0) [] && f == 0 then "ok" else "viol:global-shared-only"
+        else if fail then
+          -- an `o` cannot happen (nothing answers), and `handledCount` is what the upstream would have seen
+          if rs.any (fun x => x.toList.contains 'o') && ops.all (fun op => match op with | .direct _ _ => false | _ => true) then "viol:answered-without-upstream"
+          else if rs.length != ops.length then "viol:listener"
+          else match (ops.zip (sw 's' 'o' rs)).mapM fun (op, out) => obsAtoms op out with
+            | none => "viol:listener"
+            | some xss => if f == 0 && atomsSpec c (specBurst c) xss.flatten [] then "ok" else "viol:listener-failing-upstream"
+        else if listenerSpec c (specBurst c) ops rs f then "ok" else "viol:listener"
       | _, _ => "unparsed"
     (m, v)
   | _, _, _, _ => ("bad-case", "na")
